@@ -318,13 +318,16 @@ pub fn compile_mir_to_lir(heap: &mut Heap, sources: mir::Sources) -> lir::Source
     functions,
   } = sources;
 
-  // First pass: identify enum types with Int31 variants
+  // First pass: identify enum types with Int31 or unboxed variants
   // These types need to use AnyPointer in WASM GC because they can hold either
-  // a struct reference or ref.i31
+  // a struct reference or ref.i31, or (unboxed variant) a reference to the payload's own struct
+  // type, which is not a subtype of the enum's struct type.
   let mut types_needing_any_pointer: TypesNeedingAnyPointer = HashSet::new();
   for type_def in &type_definitions {
     if let mir::TypeDefinitionMappings::Enum(variants) = &type_def.mappings {
-      let has_i31_variant = variants.iter().any(|v| matches!(v, mir::EnumTypeDefinition::Int31));
+      let has_i31_variant = variants.iter().any(|v| {
+        matches!(v, mir::EnumTypeDefinition::Int31 | mir::EnumTypeDefinition::Unboxed(_))
+      });
       if has_i31_variant {
         types_needing_any_pointer.insert(type_def.name);
       }
